@@ -135,7 +135,7 @@ PROPS = {
     'C09': dict(
         lean_modules=['Model.FeeMarket', 'Model.Block', 'Properties.C09', 'Facts.C09', 'Facts.TieFee', 'Facts.TieFeeMarket', 'Facts.TieTransition', 'Facts.TieMeta', 'Facts.TieAdmission'],
         facts=['*'],
-        theorems=['tie_cosmos_fee_checker_admits', 'tie_eth_fee_checker_admits', 'min_gas_price_ge', 'priority_ok', 'tie_geth_calc_base_fee', 'tie_calculate_base_fee', 'tie_min_gas_price_deliver', 'tie_min_gas_price_ge', 'tie_priority_refuses', 'tie_priority_panics_on_empty', 'tie_single_fee', 'tie_pre_check_accepts', 'fact_translated_all', 'C09_unchanged_at_target', 'C09_increase_exact', 'C09_decrease_exact', 'C09_increase_strict',
+        theorems=['tie_cosmos_fee_checker_admits', 'tie_eth_fee_checker_admits', 'min_gas_price_ge', 'priority_ok', 'tie_geth_calc_base_fee', 'tie_calculate_base_fee', 'tie_feemarket_params_validate', 'tie_feemarket_params_validate_refuses', 'tie_min_gas_price_deliver', 'tie_min_gas_price_ge', 'tie_priority_refuses', 'tie_priority_panics_on_empty', 'tie_single_fee', 'tie_pre_check_accepts', 'fact_translated_all', 'C09_unchanged_at_target', 'C09_increase_exact', 'C09_decrease_exact', 'C09_increase_strict',
                   'C09_decrease_le', 'C09_ge_floor_min', 'C09_total_no_divzero', 'C09_total', 'C09_keeper_exact',
                   'C09_zero_target_keeps', 'C09_admission', 'C09_admission_implies_precheck',
                   'fact_elasticity', 'fact_changeDenom', 'fact_london_always', 'fact_feemarket_endblock_last', 'fact_feemarket_after_gov', 'fact_maxgas_guard', 'fact_basefee_guards', 'fact_one_base_fee'],
@@ -241,7 +241,7 @@ PROPS['C19'] = dict(
 PROPS['C20'] = dict(
     lean_modules=['Model.EventSys', 'Model.Block', 'Model.FeeMarket', 'Properties.C06', 'Properties.C09', 'Properties.C13', 'Model.LogFilter', 'Properties.C20', 'Properties.C20Conc', 'Properties.C20Filter', 'Facts.EventSys', 'Facts.C09', 'Facts.Panics', 'Facts.TieFeeMarket', 'Facts.TieQuery', 'Facts.TieGas', 'Facts.TieMeta', 'Facts.KeyCapacity'],
     facts=['*'],
-    theorems=['fact_key_prefixes_not_shared_buffers', 'tie_consume_gas', 'tie_refund_gas_meter', 'tie_calculate_base_fee', 'tie_bin_search_total', 'fact_translated_all', 'C20_rejected_is_noop', 'C20_ante_panic_charges_block_gas_only', 'C20_dropped_is_noop', 'C20_isolation', 'C20_isolation_replace', 'runItems_append',
+    theorems=['fact_key_prefixes_not_shared_buffers', 'tie_consume_gas', 'tie_refund_gas_meter', 'tie_calculate_base_fee', 'tie_feemarket_params_validate', 'tie_feemarket_params_validate_refuses', 'tie_bin_search_total', 'fact_translated_all', 'C20_rejected_is_noop', 'C20_ante_panic_charges_block_gas_only', 'C20_dropped_is_noop', 'C20_isolation', 'C20_isolation_replace', 'runItems_append',
               'C09_total', 'C09_total_no_divzero', 'C09_zero_target_keeps', 'C13_endBlock_total', 'C13_inv_block',
               'C20_no_send_on_closed', 'inv_step', 'inv_run', 'C20_original_crashes', 'C20_original_drops', 'C20_lock_needed', 'C20_index_needed',
               'C20_filter_total', 'C20_filterLogs_total', 'C20_guard_needed', 'topicLoop_total', 'fact_filterlogs_guards', 'fact_basefee_guards', 'fact_one_base_fee', 'fact_maxgas_guard', 'fact_block_panic_sites', 'fact_consume_locks_across_send', 'fact_install_shape', 'fact_uninstall_shape', 'fact_join_indexes', 'fact_context_guarded'],
